@@ -108,6 +108,14 @@ def handle (j : Json) : Except String Json := do
     if b == "mediumLinear" then pure (probJson (n'.vname old) (n'.mediumLinear ex (← ratOf j "min_obj")))
     else pure (probJson (n'.vname old) (n'.mediumMip ex (← ratOf j "min_obj") (n'.bigM ex)))
   | "fastcc" => pure (probJson nm (n.fastcc (← natsOf j "sub") (← ratOf j "thr") (← natsOf j "flip") (← (← j.getObjVal? "flipped").getBool?)))
+  | "reactionDeletion" => pure (probJson nm (n.reactionDeletion (← natsOf j "closed")))
+  | "geneDeletion" =>
+    let rules ← (← (← j.getObjVal? "rules").getArr?).toList.mapM (fun r => do
+      match GPRM.fromString (← r.getStr?) with
+      | .rule g => pure g
+      | .malformed => throw "malformed rule")
+    let ko ← (← (← j.getObjVal? "ko").getArr?).toList.mapM (fun x => x.getStr?)
+    pure (probJson nm (n.geneDeletion rules ko))
   | "loopless" =>
     let ns ← (← (← j.getObjVal? "ns").getArr?).toList.mapM (fun r => do (← r.getArr?).toList.mapM (fun x => do parseRat (← x.getStr?)))
     pure (probJson nm (n.loopless ns (← ratOf j "cutoff")))
